@@ -393,3 +393,48 @@ Theorem C01_translated_rtl_nodes mode en :
   (forall parts, eval_rtl en (ECat parts) = PyRtlRhsGen.g_concat (eval_rtl en) parts).
 Proof. exact (GenEqPyrtlRhs.gen_rhs_nodes_eq mode en). Qed.
 Print Assumptions C01_translated_rtl_nodes.
+
+(* ---- translator unit "pyrtl_switch": the statements _Compiler._emit_switch emits (match block / if-elif chain),
+   regenerated from the f-strings of /repo on every run, read as "which case's handler runs at run time" ---- *)
+From V.Proofs Require GenEqPyrtlSwitch.
+From V.Gen Require PyRtlSwitchGen.
+
+(* the use_match loop; upm_ = _USE_PATTERN_MATCHING, true on Python >= 3.10 (the translator refuses otherwise) *)
+Theorem C01_translated_switch_use_match (A : Type) (cs : list (option (list pattern) * A)) :
+  PyRtlSwitchGen.g_use_match true cs = use_match (map fst cs).
+Proof. exact (GenEqPyrtlSwitch.gen_use_match_eq cs). Qed.
+Print Assumptions C01_translated_switch_use_match.
+
+(* `match test: case _ / case _ if False / case 0b0<p> | ...` selects the case rtl_switch true selects, all inputs *)
+Theorem C01_translated_switch_match_form (A : Type) (f : option (list pattern) * A -> Z) t cs :
+  match PyRtlSwitchGen.g_match_form t cs with None => 0 | Some c => f c end
+  = rtl_switch true t (map (fun c => (fst c, f c)) cs).
+Proof. exact (GenEqPyrtlSwitch.gen_match_form_eq f t cs). Qed.
+Print Assumptions C01_translated_switch_match_form.
+
+(* `if v == (m & test) or v == test ...: / elif ...:` selects the case rtl_switch false selects, all inputs *)
+Theorem C01_translated_switch_if_form (A : Type) (f : option (list pattern) * A -> Z) t cs i :
+  match PyRtlSwitchGen.g_if_form t cs i with None => 0 | Some c => f c end
+  = rtl_switch false t (map (fun c => (fst c, f c)) cs).
+Proof. exact (GenEqPyrtlSwitch.gen_if_form_eq f t cs i). Qed.
+Print Assumptions C01_translated_switch_if_form.
+
+Theorem C01_translated_switch_emit (A : Type) (f : option (list pattern) * A -> Z) t cs :
+  match PyRtlSwitchGen.g_emit_switch true t cs with None => 0 | Some c => f c end
+  = rtl_switch (use_match (map fst cs)) t (map (fun c => (fst c, f c)) cs).
+Proof. exact (GenEqPyrtlSwitch.gen_emit_switch_eq f t cs). Qed.
+Print Assumptions C01_translated_switch_emit.
+
+(* _RHSValueCompiler.on_SwitchValue: the result variable, for every meaning self_/rrhs_ of the sub-values' code *)
+Theorem C01_translated_switch_value (self_ rrhs_ : expr -> Z) test cases :
+  PyRtlSwitchGen.g_switch_value self_ rrhs_ test cases
+  = rtl_switch (use_match (map fst cases)) (rmask (ewidth test) (rrhs_ test))
+               (map (fun c => (fst c, rsign (shape_of (snd c)) (self_ (snd c)))) cases).
+Proof. exact (GenEqPyrtlSwitch.gen_switch_value_eq self_ rrhs_ test cases). Qed.
+Print Assumptions C01_translated_switch_value.
+
+(* the SwitchValue node missing from C01_translated_rtl_nodes: eval_rtl is a fixed point of the regenerated compiler *)
+Theorem C01_translated_switch_node en test cases :
+  eval_rtl en (ESwitch test cases) = PyRtlSwitchGen.g_switch_value (eval_rtl en) (eval_rtl en) test cases.
+Proof. exact (GenEqPyrtlSwitch.gen_switch_node_eq en test cases). Qed.
+Print Assumptions C01_translated_switch_node.
